@@ -1,6 +1,6 @@
 """C08 — hash table: sequential behaviour equals a reference multimap for all inputs (mostly N/A).
 Only four structural clauses of its anchors are decided; functional equality is not."""
-from . import lfht
+from . import lfht, c09
 
 META = {
     "explanation": "Input-universal functional equality with a reference multimap is NOT decidable by static analysis and is not claimed. Decided structural clauses of its anchors: parameter validation "
@@ -12,39 +12,17 @@ META = {
 }
 
 
-def rule_chain(ctx, rep):
-    """bucket node is linked before any node of identical reverse hash: the early exit of the
-    insertion scan for bucket_flag compares reverse hashes of iter and node (not the raw hash)"""
-    from .. import ir, pat
-    a = lfht.fn(ctx, "_cds_lfht_add")
-    rep.touch(a)
-    found = 0
-    for b in a.blocks:
-        t = b.insts[-1]
-        if t.op != "br" or len(b.succ) != 2:
-            continue
-        e = ir.expr(a, t.args[0], 8)
-        lv = []
-        pat.leaf_atoms(e if e[0] in ("icmp", "bin", "select") else ("icmp", "ne", e, ("c", 0)), True, lv)
-        if any(x[0] == "ne" and x[1] == ("arg", 7) and x[2] == ("c", 0) for x in lv) and len(lv) >= 2:
-            found += 1
-            cmpv = [x for x in lv if x[0] == "eq" and x[1][0] == "load" and x[1][1].endswith(lfht.RH)]
-            ok = bool(cmpv) and all(x[2][0] == "load" and x[2][1].endswith(lfht.RH) and x[2][1].startswith("arg5") for x in cmpv)
-            rep.check(ok, "C08.chain", "add.bucket-first-in-chain", "a bucket node is inserted before nodes whose reverse hash equals its own reverse hash",
-                      "bucket placement compares iter->reverse_hash with %s instead of node->reverse_hash: after a grow, nodes whose hash equals the new bucket index are linked before their bucket and become invisible to lookups"
-                      % (ir.expr_str(cmpv[0][2]) if cmpv else "nothing"), [t.where()])
-    pat.require(found >= 1, "_cds_lfht_add: bucket_flag early-exit test not found")
-
-
 RULES = [
     ("C08.valid", lambda c, r: lfht.rule_valid(c, r, "C08.valid")),
     ("C08.class", lambda c, r: lfht.rule_class(c, r, "C08.class")),
     ("C08.bucket", lambda c, r: lfht.rule_bucket(c, r, "C08.bucket")),
-    ("C08.chain", rule_chain),
+    ("C08.chain", lambda c, r: lfht.rule_chain(c, r, "C08.chain")),
     ("C08.tables", lambda c, r: lfht.rule_mm(c, r, "C08.tables")),
     ("C08.rev", lambda c, r: lfht.rule_rev(c, r, "C08.rev")),
     ("C08.replace", lambda c, r: lfht.rule_replace(c, r, "C08.replace")),
     ("C08.unique", lambda c, r: lfht.rule_unique(c, r, "C08.unique")),
     ("C08.del", lambda c, r: lfht.rule_del(c, r, "C08.del")),
+    ("C08.iter", lambda c, r: lfht.rule_iter(c, r, "C08.iter")),
+    ("C08.bounds", lambda c, r: c09.rule_pow2(c, r, "C08")),
 ]
 FLOORS = {}
